@@ -6,8 +6,7 @@ functions and a ``build()`` function that uses the ``MachineBuilder``
 fluent API to assemble the machine.
 """
 
-import keyword
-from typing import Any, Dict, List, Set
+from typing import Any, Dict, List, Set, Tuple
 
 from ..builders import render_builder_build
 from ..extractor import extract_events
@@ -22,7 +21,8 @@ from ._shared import (
     generate_imports,
     generate_logger_setup,
     generate_section_header,
-    snake_case_name,
+    logic_decorator,
+    logic_function_names,
 )
 
 
@@ -72,6 +72,9 @@ class PythonicBuilderStrategy(BaseStrategy):
             parts.append(
                 self._generate_component(
                     items=ctx.actions,
+                    names=logic_function_names(
+                        ctx.actions, ctx.guards, ctx.services
+                    ),
                     component_type="action",
                     is_async=ctx.is_async,
                     log=ctx.log,
@@ -83,6 +86,9 @@ class PythonicBuilderStrategy(BaseStrategy):
             parts.append(
                 self._generate_component(
                     items=ctx.guards,
+                    names=logic_function_names(
+                        ctx.actions, ctx.guards, ctx.services
+                    ),
                     component_type="guard",
                     is_async=ctx.is_async,
                     log=ctx.log,
@@ -94,6 +100,9 @@ class PythonicBuilderStrategy(BaseStrategy):
             parts.append(
                 self._generate_component(
                     items=ctx.services,
+                    names=logic_function_names(
+                        ctx.actions, ctx.guards, ctx.services
+                    ),
                     component_type="service",
                     is_async=ctx.is_async,
                     log=ctx.log,
@@ -428,6 +437,7 @@ class PythonicBuilderStrategy(BaseStrategy):
     @staticmethod
     def _generate_component(
         items: Set[str],
+        names: Dict[Tuple[str, str], str],
         component_type: str,
         is_async: bool,
         log: bool,
@@ -451,12 +461,12 @@ class PythonicBuilderStrategy(BaseStrategy):
         )
 
         for original in sorted(items):
-            fn_name = snake_case_name(original)
-            if keyword.iskeyword(fn_name):
-                fn_name = f"{fn_name}_"
+            fn_name = names[(component_type, original)]
 
             # -- decorator --------------------------------------------
-            code_lines.append(f"@{component_type}")
+            code_lines.append(
+                logic_decorator(component_type, original, fn_name)
+            )
 
             # -- signature (no self) ----------------------------------
             async_kw = (
@@ -575,21 +585,24 @@ class PythonicBuilderStrategy(BaseStrategy):
         if not machine.id:
             machine.id = ctx.machine_id
 
+        fn_names = logic_function_names(
+            ctx.actions, ctx.guards, ctx.services
+        )
         logic_lines: List[str] = []
         for name in sorted(ctx.actions):
             logic_lines.append(
                 f'    builder.action("{escape_for_string(name)}", '
-                f"{snake_case_name(name)})"
+                f"{fn_names[('action', name)]})"
             )
         for name in sorted(ctx.guards):
             logic_lines.append(
                 f'    builder.guard("{escape_for_string(name)}", '
-                f"{snake_case_name(name)})"
+                f"{fn_names[('guard', name)]})"
             )
         for name in sorted(ctx.services):
             logic_lines.append(
                 f'    builder.service("{escape_for_string(name)}", '
-                f"{snake_case_name(name)})"
+                f"{fn_names[('service', name)]})"
             )
 
         code = render_builder_build(machine, context=machine.context)
